@@ -122,6 +122,24 @@ static void check_ops(int d, const std::vector<double>& a, const std::vector<dou
   { SU_vector r = va - vb; cmp("operator-", r, w, 0); SU_vector r2 = va; r2 -= vb; cmp("operator-=", r2, w, 0); }
   for (int k = 0; k < n; k++) w[k] = -a[k];
   { SU_vector r = -va; cmp("negation", r, w, 0); }
+  // every value category of the operands: temporaries, moved-from vectors and expression results on either side
+  {
+    std::vector<double> sum(n), dif(n), rdif(n), d2(n), s2(n);
+    for (int k = 0; k < n; k++) { sum[k] = a[k] + b[k]; dif[k] = a[k] - b[k]; rdif[k] = b[k] - a[k]; double t = b[k] * 2.0; d2[k] = a[k] - t; s2[k] = a[k] + t; }
+    { SU_vector c = vb; SU_vector r = va - std::move(c); cmp("a-move(b)", r, dif, 0); }
+    { SU_vector r = va - SU_vector(vb); cmp("a-SU_vector(b)", r, dif, 0); }
+    { SU_vector r = va - vb * 2.0; cmp("a-(b*2)", r, d2, 0); }
+    { SU_vector r = va + vb * 2.0; cmp("a+(b*2)", r, s2, 0); }
+    { SU_vector c = va; SU_vector r = std::move(c) - vb; cmp("move(a)-b", r, dif, 0); }
+    { SU_vector c = va, e = vb; SU_vector r = std::move(c) - std::move(e); cmp("move(a)-move(b)", r, dif, 0); }
+    { SU_vector c = vb; SU_vector r = va + std::move(c); cmp("a+move(b)", r, sum, 0); }
+    { SU_vector c = va; SU_vector r = std::move(c) + vb; cmp("move(a)+b", r, sum, 0); }
+    { SU_vector c = va, e = vb; SU_vector r = std::move(c) + std::move(e); cmp("move(a)+move(b)", r, sum, 0); }
+    { SU_vector r = SU_vector(vb) - va; cmp("SU_vector(b)-a", r, rdif, 0); }
+    { SU_vector r(d); r = va - SU_vector(vb); cmp("r=a-SU_vector(b)", r, dif, 0); SU_vector q = mkvec(d, std::vector<double>(n, 0.0)); q += va - SU_vector(vb); cmp("q+=a-SU_vector(b)", q, dif, 0); }
+    { SU_vector c = va; SU_vector r = -std::move(c); std::vector<double> ng(n); for (int k = 0; k < n; k++) ng[k] = -a[k]; cmp("-move(a)", r, ng, 0); }
+    { SU_vector c = va; c -= SU_vector(vb); cmp("a-=SU_vector(b)", c, dif, 0); SU_vector e = va; e += SU_vector(vb); cmp("a+=SU_vector(b)", e, sum, 0); }
+  }
   if (!(va == va) || !(vb == vb)) violation(dsig("operator==:not-reflexive", d), J().i("d", d).arr("a", a).done());
   bool same = true; for (int k = 0; k < n; k++) if (a[k] != b[k]) same = false;
   if ((va == vb) != same) violation(dsig("operator==:wrong", d), J().i("d", d).arr("a", a).arr("b", b).done());
